@@ -12,6 +12,8 @@
 //	val <id> <kind> <post> <idx> <target> <siblings> <leaf hash> <root> <levels> => <valid> <replay> | PANIC
 //	lv <n> => <int(math.Ceil(math.Log2(float64(n))))>      (lvx: same, for n > 2^48+1)
 //	lvrun <from> <to> => <v>                    the Go expression is v for every n in [from,to]
+//	kval <id> <postSession> <postBlock> <S> <H> <U> <index> <n> => ok | err:<code> | PANIC
+//	                                            real Keeper.ValidateProof (keeper.go)
 //
 // A hash range is rendered hash:lower:upper.  The Lean driver does not compute blake2b: the model
 // takes the hash function as a parameter and the driver instantiates it with the table built from
@@ -238,7 +240,11 @@ func genSet(r *gen.R, n, dups int) []pc.Proof {
 	return ps
 }
 
-func isPost(height int64) bool { return height >= 30024 || height == -1 }
+// upgradeAt is the height at which the parent-hash layout switches (codec.GetCodecUpgradeHeight():
+// 30024 with the default globals; the keeper stream places it elsewhere through codec.UpgradeHeight).
+var upgradeAt int64 = 30024
+
+func isPost(height int64) bool { return height >= upgradeAt || height == -1 }
 
 var preHeights = []int64{1, 100, 30023}
 var postHeights = []int64{30024, 30025, 100000, -1}
@@ -262,6 +268,11 @@ func leafHash(p pc.Proof) []byte { return b2(p.Bytes()) }
 
 // mkTree runs the real GenerateRoot and emits the tree line.
 func mkTree(ps []pc.Proof, height int64) *tree {
+	return mkTreeWith(ps, height, func(cp []pc.Proof) (pc.HashRange, []pc.Proof) { return pc.GenerateRoot(height, cp) })
+}
+
+// mkTreeWith: as mkTree, the root coming from rootFn (types.GenerateRoot or Evidence.GenerateMerkleRoot).
+func mkTreeWith(ps []pc.Proof, height int64, rootFn func(cp []pc.Proof) (pc.HashRange, []pc.Proof)) *tree {
 	treeID++
 	t := &tree{id: treeID, height: height, post: isPost(height), proofs: ps, n: len(ps)}
 	seen := map[uint64]bool{}
@@ -283,7 +294,7 @@ func mkTree(ps []pc.Proof, height int64) *tree {
 	res := "PANIC"
 	func() {
 		defer func() { recover() }()
-		root, sorted := pc.GenerateRoot(height, cp)
+		root, sorted := rootFn(cp)
 		var sh [][]byte
 		for _, p := range sorted {
 			sh = append(sh, leafHash(p))
@@ -312,6 +323,11 @@ func padClass(n int) int {
 
 // realProof runs the real GenerateProofs and emits the proof line.
 func realProof(t *tree, index int) (proof, pc.Proof, bool) {
+	return realProofWith(t, index, func(cp []pc.Proof) (pc.MerkleProof, pc.Proof) { return pc.GenerateProofs(t.height, cp, index) })
+}
+
+// realProofWith: as realProof, the proof coming from proofFn (types.GenerateProofs or Evidence.GenerateMerkleProof).
+func realProofWith(t *tree, index int, proofFn func(cp []pc.Proof) (pc.MerkleProof, pc.Proof)) (proof, pc.Proof, bool) {
 	cp := append([]pc.Proof(nil), t.proofs...)
 	var p proof
 	var leaf pc.Proof
@@ -319,7 +335,7 @@ func realProof(t *tree, index int) (proof, pc.Proof, bool) {
 	res := "PANIC"
 	func() {
 		defer func() { recover() }()
-		mp, l := pc.GenerateProofs(t.height, cp, index)
+		mp, l := proofFn(cp)
 		p.idx, p.target = mp.TargetIndex, fromPC(mp.Target)
 		for _, s := range mp.HashRanges {
 			p.sibs = append(p.sibs, fromPC(s))
@@ -726,10 +742,11 @@ func main() {
 	seed := flag.Uint64("seed", 1, "")
 	n := flag.Int("n", 2000, "budget: number of validate lines (verify/forge) or random level samples (levels)")
 	out := flag.String("out", "c29.trace", "")
-	mode := flag.String("mode", "verify", "verify | forge | levels")
+	mode := flag.String("mode", "verify", "verify | forge | levels | keeper")
 	max := flag.Int("max", 1100, "largest set size")
 	allSizes := flag.Bool("allsizes", false, "verify: every size 5..max instead of the padding classes")
 	lvUpto := flag.Int64("lvupto", 1<<20, "levels: exhaustive bound")
+	keeperN := flag.Int("keeper", 0, "verify: append this many keeper-level validations (mode keeper) to the stream")
 	flag.Parse()
 
 	// the hashing era is selected through package globals of /repo/codec: pin them, restore at exit
@@ -742,10 +759,15 @@ func main() {
 	switch *mode {
 	case "verify":
 		runVerify(r, *n, *max, *allSizes)
+		if *keeperN > 0 {
+			runKeeper(r, *keeperN)
+		}
 	case "forge":
 		runForge(r, *n, *max)
 	case "levels":
 		runLevels(r, *lvUpto, *n)
+	case "keeper":
+		runKeeper(r, *n)
 	default:
 		panic("mode")
 	}
